@@ -558,6 +558,22 @@ int main(int argc, char **argv) {
             }
         }
     }
+    /* every pair of byte values, alone and behind a letter: the case-folding and comparison families over the whole byte range
+     * (the 4-symbol alphabet above cannot tell a fold that is wrong only next to the letter ranges: '@' '[' '`' '{') */
+    {
+        unsigned char a[2], b[2];
+        for (unsigned x = shard; x < 256; x += nshards) {
+            a[0] = (unsigned char) x;
+            bstr_single(a, 1);
+            for (unsigned y = 0; y < 256; y++) {
+                b[0] = (unsigned char) y;
+                bstr_pair(a, 1, b, 1);
+                a[0] = 'k'; a[1] = (unsigned char) x; b[0] = 'K'; b[1] = (unsigned char) y;
+                bstr_pair(a, 2, b, 2);
+                a[0] = (unsigned char) x; b[0] = (unsigned char) y;
+            }
+        }
+    }
     numbers(shard, nshards, digits);
     printf("S {\"evaluations\":%llu,\"violations\":%llu,\"list_states\":%llu,\"list_transitions\":%llu,\"list_growths_with_first_nonzero\":%llu,\"table_ops\":%llu,\"bstr_checks\":%llu,"
            "\"number_checks\":%llu,\"samples\":[\"list: push push shift push push (grow while wrapped)\",\"table: add(Ab) get(AB) get_c(ab) get_index(0..n+1)\",\"bstr_index_of(\\\"aA\\\\0-\\\", \\\"a\\\")\",\"mem_to_pint(\\\"9223372036854775808\\\")\"]}\n",
